@@ -9,7 +9,8 @@ package pilosa
 // create views that do not hold the target bit), the history
 //     Set(target,t) for t in T ; Set(sibling,s) for s in S ; Clear(target) ; <observe> ;
 //     Set(target,t0) ; Clear(target) ; <observe>
-// is executed through PQL on the executor. <observe> reads the target row from EVERY view the field
+// is executed through PQL on the executor; a second family starts with an operation on the FRESH field
+// (Clear of the target / of the sibling, Set without a timestamp) before any time view exists. <observe> reads the target row from EVERY view the field
 // has (standard and all time views) and runs a battery of PQL Row(f=r, from=, to=) range queries
 // plus Row(f=r). Oracle (the statement as is): after Clear the target column is returned by none.
 // Both sort-relevant variants of the grid are explored (values sharing / not sharing leading digits
@@ -228,11 +229,22 @@ type c19Case struct {
 	NoStd   bool   `json:"noStandardView"`
 	T       []int  `json:"target_points"`
 	S       []int  `json:"sibling_points"`
+	// Pre: an operation on the FRESH field, before any timestamped Set has created a time view:
+	// "" | "clear-target" | "clear-sibling" | "set-target-plain" (a Set without timestamp)
+	Pre string `json:"pre,omitempty"`
 }
 
 func (cs c19Case) String() string {
 	var sb strings.Builder
 	fmt.Fprintf(&sb, "time field quantum=%s noStandardView=%v:", cs.Quantum, cs.NoStd)
+	switch cs.Pre {
+	case "clear-target":
+		fmt.Fprintf(&sb, " Clear(%d,f=%d)", c19Target, c19Row)
+	case "clear-sibling":
+		fmt.Fprintf(&sb, " Clear(%d,f=%d)", c19Sibling, c19Row)
+	case "set-target-plain":
+		fmt.Fprintf(&sb, " Set(%d,f=%d)", c19Target, c19Row)
+	}
 	for _, i := range cs.T {
 		fmt.Fprintf(&sb, " Set(%d,f=%d,%s)", c19Target, c19Row, c19GridPoint(cs.Grid, i).Format(TimeFormat))
 	}
@@ -265,6 +277,17 @@ func (n *c19Node) c19Run(cs c19Case) c19Result {
 			panic(err)
 		}
 	}()
+	if cs.Pre != "" {
+		pq := map[string]string{
+			"clear-target":     fmt.Sprintf("Clear(%d, %s=%d)", c19Target, fname, c19Row),
+			"clear-sibling":    fmt.Sprintf("Clear(%d, %s=%d)", c19Sibling, fname, c19Row),
+			"set-target-plain": fmt.Sprintf("Set(%d, %s=%d)", c19Target, fname, c19Row),
+		}[cs.Pre]
+		if _, err := n.query(pq); err != nil {
+			r.errs = "pre: " + err.Error()
+			return r
+		}
+	}
 	var ts []time.Time
 	for _, i := range cs.T {
 		t := c19GridPoint(cs.Grid, i)
@@ -684,6 +707,67 @@ func TestVerif_C19(t *testing.T) {
 				}
 				c.Violate(fk, cs.String(), got, "target column returned by no view and no range query")
 			}
+		}
+	}
+	// ---- histories that touch the FRESH field first --------------------------------------------
+	// an operation before the first timestamped Set (Clear of the target / of the sibling, a Set
+	// without timestamp), then Set(target,t); [Set(sibling,t)]; Clear; observe; Set; Clear; observe.
+	{
+		var run []c19Case
+		if parent {
+			for _, cf := range cfgs {
+				seen := map[string]bool{}
+				n := 0
+				for i := 0; i < 16 && n < 2; i++ {
+					k := strings.Join(c19ViewNames(c19GridPoint(cf.grid, i), cf.q), ",")
+					if seen[k] {
+						continue
+					}
+					seen[k] = true
+					n++
+					for _, pre := range []string{"clear-target", "clear-sibling", "set-target-plain"} {
+						if pre == "set-target-plain" && cf.nostd {
+							continue
+						}
+						run = append(run, c19Case{Grid: cf.grid, Quantum: cf.q, NoStd: cf.nostd, T: []int{i}, Pre: pre},
+							c19Case{Grid: cf.grid, Quantum: cf.q, NoStd: cf.nostd, T: []int{i}, S: []int{i}, Pre: pre})
+					}
+				}
+			}
+		}
+		c.Bound("fresh_field_histories", len(run))
+		input, _ := json.Marshal(run)
+		recs := make([]*c19Rec, len(run))
+		c.ProcFor(c.NextRunLabel(), len(run), input, body, func(b []byte) {
+			var r c19Rec
+			if json.Unmarshal(b, &r) == nil && r.I < len(recs) {
+				recs[r.I] = &r
+			}
+		})
+		for i, cs := range run {
+			r := recs[i]
+			if r == nil || (r.L1 == "" && r.L2 == "" && r.Errs == "") {
+				continue
+			}
+			same := 0
+			for j := 0; j < 3; j++ {
+				r2 := c19RunGuarded(cs)
+				if r2.left1 == r.L1 && r2.left2 == r.L2 && r2.errs == r.Errs {
+					same++
+				}
+			}
+			if same != 3 {
+				flaky = append(flaky, fmt.Sprintf("%s reproduced %d/3", cs.String(), same))
+				continue
+			}
+			minimalFails++
+			got := "still returned by: " + r.L1 + r.L2
+			fk := fmt.Sprintf("clear-leaves-bit after=%s-on-fresh-field quantum=%s noStandardView=%v siblings=%d", cs.Pre, cs.Quantum, cs.NoStd, len(cs.S))
+			if r.Errs != "" {
+				fk = fmt.Sprintf("error after=%s-on-fresh-field quantum=%s noStandardView=%v: %s", cs.Pre, cs.Quantum, cs.NoStd, c19ErrClass(r.Errs))
+				got = r.Errs
+			}
+			c.Violate(fk, cs.String(), got, "target column returned by no view and no range query")
 		}
 	}
 	c.AddStates(int64(len(states)))
